@@ -586,6 +586,9 @@ class OggFileType(FileType):
                 reraise(self._Error, e, sys.exc_info()[2])
             except EOFError:
                 raise self._Error("no appropriate stream found")
+            except (IndexError, struct.error) as e:
+                # see save()
+                reraise(self._Error, e, sys.exc_info()[2])
         except IOError as e:
             reraise(self._Error, e, sys.exc_info()[2])
 
@@ -613,3 +616,7 @@ class OggFileType(FileType):
             reraise(self._Error, e, sys.exc_info()[2])
         except EOFError:
             raise self._Error("no appropriate stream found")
+        except (IndexError, struct.error) as e:
+            # header pages without a packet, header packets that are
+            # too short, page numbers that no longer fit 32 bits
+            reraise(self._Error, e, sys.exc_info()[2])
